@@ -156,6 +156,10 @@ pub fn write_doc(top: &[Node], st: &mut Style) -> String {
                     }
                     let root = acc.first().map(|x| x.0.clone()).unwrap_or("r".into());
                     let mut d = format!("<!DOCTYPE {} [\n<!ENTITY company \"ACME\">\n<!ENTITY nbsp \"&#160;\">\n", root);
+                    if st.rng.chance(1, 2) {
+                        // external and parameter entities, notations: declared, never used
+                        d.push_str("<!ENTITY chapter SYSTEM \"chapter1.xml\">\n<!ENTITY logo PUBLIC \"-//X//LOGO//EN\" \"logo.gif\" NDATA gif>\n<!NOTATION gif SYSTEM \"image/gif\">\n<!ENTITY % common SYSTEM \"common.ent\">\n");
+                    }
                     for (e, attrs) in acc.iter().take(6) {
                         d.push_str(&format!("<!ELEMENT {} ANY>\n", e));
                         for a in attrs.iter().take(3) {
